@@ -333,6 +333,12 @@ theorem tail_stress_mirrors (p : GenP ℝ) (om df : List ℝ) (rows : List (Fin 
       (wamTail p (uniformGrid (N := N) 0 om df) (fieldOf (mirField rows)) (flipWind w) z0) :=
   wamTail_mir p om df rows w z0
 
+/-- the total stress vector is reflected, so the reported stress direction is negated -/
+theorem total_stress_vector_mirrors (p : GenP ℝ) (om df : List ℝ) (kin : Kin ℝ) (rows : List (Fin N → ℝ)) (w : Wind ℝ) (z0 : ℝ) :
+    OptMir (totalStressVec p (uniformGrid (N := N) 0 om df) kin (fieldOf rows) w z0)
+      (totalStressVec p (uniformGrid (N := N) 0 om df) kin (fieldOf (mirField rows)) (flipWind w) z0) :=
+  totalStressVec_mir p om df kin rows w z0
+
 /-- stress magnitude, stress balance and roughness are unchanged by the mirror image -/
 theorem total_stress_magnitude_mirror_invariant (p : GenP ℝ) (om df : List ℝ) (kin : Kin ℝ) (rows : List (Fin N → ℝ))
     (w : Wind ℝ) (z0 : ℝ) :
